@@ -1,5 +1,6 @@
 import OutlineModel.Proofs.TieMConn
 import OutlineModel.Proofs.TieHandle
+import OutlineModel.Proofs.TieAuth
 import OutlineModel.Props.C06
 import OutlineModel.Model.MConn
 import OutlineModel.Gen.Decisions
@@ -465,5 +466,65 @@ theorem code_closed_once_with_the_real_outcome
       cases hr : (req (authenticate (measure conn)).2.1).2 with
       | some e => cases (ctxDeadline ctx).2 <;> simp [Tie.Handle.authEff, Tie.Handle.clearEff, Tie.Handle.drainEff, Tie.Handle.callAuth, Tie.Handle.callReq]
       | none => cases (ctxDeadline ctx).2 <;> simp [Tie.Handle.authEff, Tie.Handle.clearEff, Tie.Handle.callAuth, Tie.Handle.callReq, Tie.Handle.callRelay]
+
+/-- the authenticate function a service stores in its handler, read off one run of the translated authenticator at a
+    given replay-cache state (a panic of the authenticator would be the status "PANIC": `Tie.Auth.outcome` shows when) -/
+def authFnOf (run : Tie.Handle.Conn → Option (Gen.Code.ReplayCache × String × Tie.Handle.Conn × Option String × List GoRT.Eff)) :
+    Tie.Handle.Conn → String × Tie.Handle.Conn × Option String :=
+  fun c => match run c with
+    | some r => (r.2.1, r.2.2.1, r.2.2.2.1)
+    | none => ("", ⟨0⟩, some "PANIC")
+
+/-- **code_tcp_connection_end_to_end**: the translated TCP entry chain for one connection — `streamHandler.Handle` with
+    the translated `handleConnection` inside and, as its authenticate function, one run of the translated authenticator
+    (any replay-cache state, any key-search result) — for every behaviour of every collaborator: if the authenticator
+    refuses with status `e` (no key opens the bytes, a server salt, a replay), the whole log of the connection is: wrap,
+    arm the deadline, authenticate, `absorbProbe` with `e`, `AddClosed` with `e`, close — no `AddAuthenticated`, no
+    address read, no dial; if it accepts with key id `id`, `AddAuthenticated id` is reported exactly once, before the one
+    `AddClosed`, and no probe is reported. -/
+theorem code_tcp_connection_end_to_end
+    (ctxDeadline : GoRT.Opaque "context.Context" → Int × Bool) (measure : Tie.Handle.Conn → Tie.Handle.Conn) (since : Int → Int)
+    (dial : GoRT.Opaque "transport.FuncStreamDialer")
+    (run : Tie.Handle.Conn → Option (Gen.Code.ReplayCache × String × Tie.Handle.Conn × Option String × List GoRT.Eff))
+    (req : Tie.Handle.Conn → String × Option String)
+    (disc : GoRT.Opaque "io.Writer") (noop : GoRT.Opaque "service.TCPConnMetrics") (now : Int)
+    (relay : GoRT.Opaque "slog.Logger" → GoRT.Opaque "context.Context" → GoRT.Opaque "transport.FuncStreamDialer" → String → Tie.Handle.Conn → Tie.Handle.Conn → Option String)
+    (h : Gen.Code.streamHandler) (ctx : GoRT.Opaque "context.Context") (conn : Tie.Handle.Conn)
+    (cm : GoRT.Opaque "service.TCPConnMetrics")
+    (rc' : Gen.Code.ReplayCache) (id : String) (c' : Tie.Handle.Conn) (st : Option String) (effs : List GoRT.Eff)
+    (hrun : run (measure conn) = some (rc', id, c', st, effs)) :
+    ∃ log, Gen.Code.streamHandler.Handle ctxDeadline measure since dial (authFnOf run) req disc noop now relay h ctx conn cm = some (h, log) ∧
+      (match st with
+       | some e => log = [Tie.Handle.measureEff conn] ++ Tie.Handle.armEffs (ctxDeadline ctx) now h.readTimeout (measure conn) ++
+           [Tie.Handle.callAuth (measure conn), Tie.Handle.absorbEff (measure conn) (if cm = ⟨0⟩ then noop else cm) e,
+            Tie.Handle.closedEff (if cm = ⟨0⟩ then noop else cm) e (since now), Tie.Handle.closeEff (measure conn)]
+       | none => callsNamed "TCPConnMetrics.AddAuthenticated" log = 1 ∧ callsNamed "absorbProbe" log = 0 ∧
+           callsNamed "TCPConnMetrics.AddClosed" log = 1 ∧
+           Tie.Handle.authEff (if cm = ⟨0⟩ then noop else cm) id ∈ log) := by
+  rw [Tie.Handle.handle_tie]
+  refine ⟨_, rfl, ?_⟩
+  have ha : authFnOf run (measure conn) = (id, c', st) := by simp [authFnOf, hrun]
+  unfold Tie.Handle.outcome
+  simp only [ha]
+  cases st with
+  | some e => simp [Tie.Handle.statusOf]
+  | none =>
+    unfold callsNamed Tie.Handle.armEffs
+    cases hr : (req c').2 with
+    | some e => cases (ctxDeadline ctx).2 <;> simp [Tie.Handle.authEff, Tie.Handle.clearEff, Tie.Handle.drainEff, Tie.Handle.callAuth, Tie.Handle.callReq, Tie.Handle.measureEff, Tie.Handle.closedEff, Tie.Handle.closeEff, Tie.Handle.statusOf]
+    | none => cases (ctxDeadline ctx).2 <;> simp [Tie.Handle.authEff, Tie.Handle.clearEff, Tie.Handle.callAuth, Tie.Handle.callReq, Tie.Handle.callRelay, Tie.Handle.measureEff, Tie.Handle.closedEff, Tie.Handle.closeEff, Tie.Handle.statusOf]
+
+/-- non-vacuity: a run that refuses with ERR_CIPHER, on a context without deadline -/
+example : ∃ log, Gen.Code.streamHandler.Handle (fun _ => (0, false)) id (fun t => t + 3) ⟨0⟩
+      (authFnOf (fun _ => some (Gen.Code.ReplayCache.zero, "", ⟨0⟩, some "ERR_CIPHER", []))) (fun _ => ("", none)) ⟨0⟩ ⟨1⟩ 100
+      (fun _ _ _ _ _ _ => none) Gen.Code.streamHandler.zero ⟨0⟩ ⟨7⟩ ⟨9⟩ = some (Gen.Code.streamHandler.zero, log) ∧
+    log.map (·.name) = ["call MeasureConn", "Conn.SetReadDeadline", "call authenticate", "absorbProbe", "TCPConnMetrics.AddClosed", "Conn.Close"] := by
+  obtain ⟨log, h1, h2⟩ := code_tcp_connection_end_to_end (fun _ => (0, false)) id (fun t => t + 3) ⟨0⟩
+    (fun _ => some (Gen.Code.ReplayCache.zero, "", ⟨0⟩, some "ERR_CIPHER", [])) (fun _ => ("", none)) ⟨0⟩ ⟨1⟩ 100
+    (fun _ _ _ _ _ _ => none) Gen.Code.streamHandler.zero ⟨0⟩ ⟨7⟩ ⟨9⟩ Gen.Code.ReplayCache.zero "" ⟨0⟩ (some "ERR_CIPHER") [] rfl
+  refine ⟨log, h1, ?_⟩
+  simp only at h2
+  rw [h2]
+  decide
 
 end OutlineModel.Props.C15
